@@ -166,9 +166,16 @@ class ShiftEval:
             if isinstance(sl, ast.Tuple) and len(sl.elts) == 2 and \
                     isinstance(sl.elts[1], ast.Name) and sl.elts[1].id == self.col_index:
                 return True
+            # vectorised: all periodic columns at once, paired positionally with self.centers
+            if self.col_index == '<self.periodic>' and isinstance(sl, ast.Tuple) and \
+                    len(sl.elts) == 2 and isinstance(sl.elts[1], ast.Attribute) and \
+                    sl.elts[1].attr == 'periodic':
+                return True
         return False
 
     def is_center(self, e):
+        if self.col_index == '<self.periodic>':
+            return isinstance(e, ast.Attribute) and e.attr == 'centers'
         return isinstance(e, ast.Subscript) and isinstance(e.value, ast.Attribute) and \
             e.value.attr == 'centers'
 
@@ -405,6 +412,62 @@ def centers_interval(prog):
     return out, n_sites
 
 
+def _whole_array_arithmetic(func, pts):
+    """An arithmetic expression one of whose operands is the whole input array (the
+    parameter, a copy / asarray of it, or a local bound to one) rather than a column
+    selection of it; None if there is none."""
+    whole = {pts}
+    changed = True
+    while changed:
+        changed = False
+        for st in walk_no_nested(func.node):
+            if isinstance(st, ast.Assign) and len(st.targets) == 1 and \
+                    isinstance(st.targets[0], ast.Name) and st.targets[0].id not in whole:
+                v = st.value
+                if isinstance(v, ast.Call) and v.args and (
+                        dotted(v.func) in ('np.copy', 'np.array', 'np.asarray',
+                                           'np.atleast_2d', 'np.asanyarray') or
+                        (isinstance(v.func, ast.Attribute) and v.func.attr == 'copy')):
+                    a = v.args[0] if dotted(v.func) else v.func.value
+                    if isinstance(a, ast.Name) and a.id in whole:
+                        whole.add(st.targets[0].id)
+                        changed = True
+                elif isinstance(v, ast.Call) and isinstance(v.func, ast.Attribute) and \
+                        v.func.attr == 'copy' and isinstance(v.func.value, ast.Name) and \
+                        v.func.value.id in whole:
+                    whole.add(st.targets[0].id)
+                    changed = True
+    def is_whole(e):
+        if isinstance(e, ast.Name):
+            return e.id in whole
+        if isinstance(e, ast.BinOp):
+            return is_whole(e.left) or is_whole(e.right)
+        if isinstance(e, ast.UnaryOp):
+            return is_whole(e.operand)
+        return False
+    changed = True
+    while changed:        # locals bound to whole-array arithmetic are whole arrays too
+        changed = False
+        for st in walk_no_nested(func.node):
+            if isinstance(st, ast.Assign) and len(st.targets) == 1 and \
+                    isinstance(st.targets[0], ast.Name) and st.targets[0].id not in whole and \
+                    is_whole(st.value):
+                whole.add(st.targets[0].id)
+                changed = True
+    for n in walk_no_nested(func.node):
+        if isinstance(n, ast.BinOp) and isinstance(n.op, (ast.Mod, ast.FloorDiv)) and \
+                is_whole(n.left):
+            return n
+        if isinstance(n, ast.AugAssign) and isinstance(n.op, ast.Mod) and \
+                isinstance(n.target, ast.Name) and n.target.id in whole:
+            return n
+        if isinstance(n, ast.Call) and dotted(n.func) in ('np.mod', 'np.remainder', 'np.fmod',
+                                                            'np.floor') and n.args and \
+                is_whole(n.args[0]):
+            return n
+    return None
+
+
 def rule_M6(ctx, rid='M6'):
     ctx.rule(rid, 'interval closure: with input columns in [0,1) and centers in the interval '
              'established by their assignments, every value stored into a periodic column by '
@@ -420,6 +483,17 @@ def rule_M6(ctx, rid='M6'):
     # (c) fresh copy
     rets = [n for n in walk_no_nested(f.node) if isinstance(n, ast.Return)]
     ctx.require(rets, 'PhaseShift.transform has no return')
+    # arithmetic applied to the whole array (not to a periodic column selection) also changes
+    # the non-periodic columns: values outside [0,1) there would be wrapped into the cube
+    whole = _whole_array_arithmetic(f, pts)
+    if whole is not None:
+        ctx.ob(rid, 'PhaseShift.transform:periodic-columns-only', False, f.where(whole),
+               '`%s` reduces the whole array modulo one: non-periodic coordinates '
+               'are no longer left untouched (a value outside [0,1) in a non-periodic column is '
+               'wrapped into the unit cube, so contains() accepts points outside it)'
+               % unparse(whole)[:60])
+        ctx.note('M6: closure not evaluated for the whole-array form')
+        return 0
     out_names = set()
     for r in rets:
         ctx.require(isinstance(r.value, ast.Name), 'PhaseShift.transform returns a non-name')
@@ -443,25 +517,47 @@ def rule_M6(ctx, rid='M6'):
            'place')
     # locate the loop over self.periodic
     loops = [n for n in walk_no_nested(f.node) if isinstance(n, ast.For)]
+    vec_stores = [st for st in f.node.body if isinstance(st, (ast.Assign, ast.AugAssign)) and
+                  isinstance(st.targets[0] if isinstance(st, ast.Assign) else st.target,
+                             ast.Subscript) and
+                  'periodic' in unparse((st.targets[0] if isinstance(st, ast.Assign)
+                                         else st.target).slice)]
+    if vec_stores and not loops:
+        pseudo = ast.For(target=ast.Name(id='<self.periodic>', ctx=ast.Store()),
+                         iter=ast.Attribute(value=ast.Name(id=f.self_name, ctx=ast.Load()),
+                                            attr='periodic', ctx=ast.Load()),
+                         body=[st for st in f.node.body if st in vec_stores or
+                               (isinstance(st, ast.Assign) and
+                                isinstance(st.targets[0], ast.Name) and
+                                st.targets[0].id not in out_names and
+                                f.node.body.index(st) > f.node.body.index(vec_stores[0]))],
+                         orelse=[])
+        ast.copy_location(pseudo, vec_stores[0])
+        loops = [pseudo]
     ctx.require(loops, 'PhaseShift.transform: loop over the periodic dimensions not found')
     n_store = 0
     for lp in loops:
         it = lp.iter
         idx_var = None
-        if isinstance(it, ast.Call) and dotted(it.func) == 'enumerate' and it.args and \
+        if isinstance(lp.target, ast.Name) and lp.target.id == '<self.periodic>':
+            idx_var = '<self.periodic>'
+        elif isinstance(it, ast.Call) and dotted(it.func) == 'enumerate' and it.args and \
                 dotted(it.args[0]) == '%s.periodic' % f.self_name and \
                 isinstance(lp.target, ast.Tuple):
             idx_var = lp.target.elts[1].id
         elif dotted(it) == '%s.periodic' % f.self_name and isinstance(lp.target, ast.Name):
             idx_var = lp.target.id
-        stores = [s for s in ast.walk(lp) if isinstance(s, ast.Assign) and
-                  isinstance(s.targets[0], ast.Subscript) and
+        stores = [s for s in ast.walk(lp) if isinstance(s, (ast.Assign, ast.AugAssign)) and
+                  isinstance(s.targets[0] if isinstance(s, ast.Assign) else s.target,
+                             ast.Subscript) and isinstance(s, ast.Assign) and
                   isinstance(s.targets[0].value, ast.Name) and
                   s.targets[0].value.id in out_names]
         for s in stores:
             sl = s.targets[0].slice
             col_ok = (idx_var is not None and isinstance(sl, ast.Tuple) and len(sl.elts) == 2
-                      and isinstance(sl.elts[1], ast.Name) and sl.elts[1].id == idx_var and
+                      and ((isinstance(sl.elts[1], ast.Name) and sl.elts[1].id == idx_var) or
+                           (idx_var == '<self.periodic>' and
+                            dotted(sl.elts[1]) == '%s.periodic' % f.self_name)) and
                       isinstance(sl.elts[0], (ast.Slice, ast.Constant)))
             ctx.ob(rid, 'PhaseShift.transform:periodic-columns-only', col_ok, f.where(s),
                    'store targets column periodic[i], paired with centers[i] by iterating '
